@@ -10,6 +10,7 @@ import (
 	"math/rand/v2"
 	"runtime"
 	"strings"
+	"sync"
 
 	"github.com/hashicorp/hcl/v2"
 	"github.com/zclconf/go-cty/cty"
@@ -54,6 +55,43 @@ func mkObj(salt, i int) cty.Value {
 	})
 }
 
+// longVars: the long collections of a scope (nested.go: for_each expressions
+// whose splat loops run over 30..100 elements): big, a list of 30..100
+// objects, and groups, a list of 2..3 objects {name, members = list of 30..64
+// objects}. Immutable values, built once per salt.
+var longCache sync.Map
+
+type longVals struct{ big, groups cty.Value }
+
+func longVars(salt int) (big, groups cty.Value) {
+	if v, ok := longCache.Load(salt); ok {
+		lv := v.(longVals)
+		return lv.big, lv.groups
+	}
+	n, mm := 30+(salt*17)%71, 35
+	if raceEnabled {
+		// the detector reports an unsynchronised access whatever the timing: the
+		// loops need not be long to widen a window, and every step costs ~10x
+		n, mm = 30+salt%4, 3
+	}
+	objs := make([]cty.Value, n)
+	for i := range objs {
+		objs[i] = mkObj(salt+11, i)
+	}
+	var gs []cty.Value
+	for g := 0; g < 2+salt%2; g++ {
+		m := 30 + (salt*7+g*13)%mm
+		ms := make([]cty.Value, m)
+		for i := range ms {
+			ms[i] = mkObj(salt+g+1, i)
+		}
+		gs = append(gs, cty.ObjectVal(map[string]cty.Value{"name": cty.StringVal(fmt.Sprintf("grp%d-%d", salt, g)), "members": cty.ListVal(ms)}))
+	}
+	lv := longVals{cty.ListVal(objs), cty.ListVal(gs)}
+	longCache.Store(salt, lv)
+	return lv.big, lv.groups
+}
+
 // mkVars builds the variables of one goroutine's scope. Everything depends on
 // salt, including the LENGTH of the collections, so that a value leaking from
 // another goroutine's evaluation changes the result.
@@ -75,7 +113,10 @@ func mkVars(salt int) map[string]cty.Value {
 		"name": cty.UnknownVal(cty.String), "id": cty.NumberIntVal(int64(salt)),
 		"tags": cty.UnknownVal(cty.List(cty.String)), "nested": cty.ListValEmpty(cty.Object(map[string]cty.Type{"v": cty.Number})),
 	})
+	bigV, groupsV := longVars(salt)
 	return map[string]cty.Value{
+		"big":     bigV,
+		"groups":  groupsV,
 		"xs":      xs,
 		"ys":      cty.ListVal(big),
 		"tup":     cty.TupleVal([]cty.Value{mkObj(salt, 9), cty.ObjectVal(map[string]cty.Value{"name": cty.StringVal(fmt.Sprintf("b%d", salt)), "id": cty.StringVal("str"), "tags": cty.EmptyTupleVal}), mkObj(salt+1, 1)}),
@@ -463,19 +504,47 @@ func genBody(r *hv.Rng, withDyn bool) (bodyTexts, map[string]int) {
 			fmt.Fprintf(&jb, "{\"v\": %s, \"inner\": {\"w\": %s}}", jstr(v), jstr(w))
 		}
 	}
+	// nested dynamic blocks (nested.go), the same fragment in both syntaxes
+	var frag *fragBody
+	if withDyn && r.Chance(0.42) {
+		frag = dynFragment(r, feat)
+		feat["body:nested-dynamic-fragment"]++
+		for _, s := range frag.stats {
+			jb.WriteString(", " + s.body.jsonBody(r, arrayForms))
+		}
+	}
 	jb.WriteString("]")
 	if withDyn {
 		fe := r.Pick("xs[*].name", "ys[*].name", "ys.*.id", "one[*].name", "emp[*].name", "st[*]", "tup[*].name", "ys[*].tags")
 		k := e()
 		inner := r.Pick("dblk.value", "dblk.value[*]", "[dblk.key, dblk.value]", "yield(dblk.value)")
 		fmt.Fprintf(&nb, "dynamic \"dblk\" {\n  for_each = %s\n  content {\n    v = %s\n    k = %s\n  }\n}\n", fe, inner, k)
+		fragDyn := ""
+		if frag != nil {
+			var nf strings.Builder
+			frag.native(&nf, "")
+			nb.WriteString(nf.String())
+			var ds []string
+			for _, d := range frag.dyns {
+				ds = append(ds, d.json(r, arrayForms))
+			}
+			fragDyn = "\"blk\": [" + strings.Join(ds, ", ") + "]"
+		}
 		if arrayForms {
-			fmt.Fprintf(&jb, "}, {\"dynamic\": [{}, {\"dblk\": [[{\"for_each\": %s}, {\"content\": [[{\"v\": %s}, {\"k\": %s}]]}]]}]", jstr(fe), jstr(inner), jstr(k))
+			fmt.Fprintf(&jb, "}, {\"dynamic\": [{}, {\"dblk\": [[{\"for_each\": %s}, {\"content\": [[{\"v\": %s}, {\"k\": %s}]]}]]}", jstr(fe), jstr(inner), jstr(k))
+			if fragDyn != "" {
+				jb.WriteString(", {" + fragDyn + "}")
+			}
+			jb.WriteString("]")
 		} else {
-			fmt.Fprintf(&jb, ", \"dynamic\": {\"dblk\": {\"for_each\": %s, \"content\": {\"v\": %s, \"k\": %s}}}", jstr(fe), jstr(inner), jstr(k))
+			fmt.Fprintf(&jb, ", \"dynamic\": {\"dblk\": {\"for_each\": %s, \"content\": {\"v\": %s, \"k\": %s}}", jstr(fe), jstr(inner), jstr(k))
+			if fragDyn != "" {
+				jb.WriteString(", " + fragDyn)
+			}
+			jb.WriteString("}")
 		}
 		feat["body:dynamic-block"]++
-		if r.Chance(0.4) {
+		if frag == nil && r.Chance(0.3) {
 			// a dynamic block nested in a static block, iterating over a splat of the outer iterator
 			fmt.Fprintf(&nb, "dynamic \"blk\" {\n  for_each = ys\n  iterator = it\n  content {\n    v = it.value.tags[*]\n    dynamic \"inner\" {\n      for_each = it.value.nested[*].v\n      content {\n        w = [inner.value, it.value.tags[*]]\n      }\n    }\n  }\n}\n")
 			feat["body:nested-dynamic"]++
